@@ -349,12 +349,15 @@ def xlsb_bytes(rng, wb):
             rws = sorted(set(p[0] for p in cells)); rng.shuffle(rws)
             rank = {r: i for i, r in enumerate(rws)}
             order = sorted(cells.items(), key=lambda kv: (rank[kv[0][0]], kv[0][1]))
+        use_short = rng.random() < 0.5
+        prevc = None
         for (r, c), v in order:
             if r != prev:
                 it = {"k": "row", "row": r, "tail": b"\0" * 13}
                 it["fr"] = fr(0, xlsbgen.item_body(it))
                 items.append(it)
                 prev = r
+                prevc = None
             if v[0] == "n":
                 val = ("real", struct.unpack("<Q", struct.pack("<d", v[1]))[0])
             elif v[0] == "b":
@@ -363,9 +366,14 @@ def xlsb_bytes(rng, wb):
                 val = ("err", ERR[v[1]])
             else:
                 val = ("st", v[1])
-            it = {"k": "cell", "col": c, "style": 0, "fl": 0, "v": val, "tail": b""}
+            if prevc is not None and c == prevc + 1 and use_short:
+                # SheetJS style: a cell that directly follows another one is a short cell record
+                it = {"k": "short", "style": 0, "fl": 0, "v": val, "tail": b""}
+            else:
+                it = {"k": "cell", "col": c, "style": 0, "fl": 0, "v": val, "tail": b""}
             it["fr"] = fr(xlsbgen.item_id(it), xlsbgen.item_body(it))
             items.append(it)
+            prevc = c
         if cells:
             rs = [p[0] for p in cells]; cs = [p[1] for p in cells]
             box = (min(rs), min(cs), max(rs), max(cs))
